@@ -297,7 +297,11 @@ func holScenarios(seed int64) []Scenario {
 					}
 				}
 				probes := []PushSpec{{Lane: pins[rep%len(pins)], Task: TaskSpec{Kind: "instant"}}, {Lane: pins[0], Task: TaskSpec{Kind: "yield"}}}
-				out = append(out, Scenario{LaneSize: ls, QueueSize: qs, TimeoutMs: 3600000, Warmup: warm, Pins: pins, Producers: [][]PushSpec{probes}, Cancel: CancelPlan{Kind: "none"}, PostPush: 1, Perturb: true})
+				sc := Scenario{LaneSize: ls, QueueSize: qs, TimeoutMs: 3600000, Warmup: warm, Pins: pins, Producers: [][]PushSpec{probes}, Cancel: CancelPlan{Kind: "none"}, PostPush: 1, Perturb: true}
+				// hold the burst lane's own goroutines at one protocol point while the burst flows
+				sc.SlowLane = burstLane
+				sc.SlowPoint = []string{"worker.beforeBlockingRecv", "worker.loop", "queue.beforeOffer", "worker.beforeRecv", "queue.afterHandover", ""}[rep]
+				out = append(out, sc)
 			}
 		}
 	}
